@@ -1,6 +1,7 @@
 package types
 
 import (
+	"cmp"
 	"io"
 	"reflect"
 )
@@ -158,17 +159,11 @@ func Compare(x, y Value) int {
 	return x.Compare(y)
 }
 
+// compare orders x and y as cmp.Compare does: for floating-point types a NaN equals
+// every NaN and is less than any other value, and -0 equals +0, so that the result
+// is a total order on every ordered type.
 func compare[T ordered](x, y T) int {
-	if x == y {
-		return 0
-	}
-	if x > y {
-		return 1
-	}
-	if x < y {
-		return -1
-	}
-	return 0
+	return cmp.Compare(x, y)
 }
 
 func unionType(x, y reflect.Type) reflect.Type {
